@@ -135,3 +135,45 @@ func tailLines(s string, n int) string {
 	}
 	return strings.Join(ls, "\n")
 }
+
+// cmdReplay re-runs the replay harness recorded in a replay file.
+func cmdReplay(args []string) int {
+	if len(args) < 1 {
+		fmt.Fprintln(os.Stderr, "usage: govc replay <replay-file>")
+		return 2
+	}
+	path := args[0]
+	if !filepath.IsAbs(path) {
+		path = filepath.Join(VerifDir, path)
+	}
+	b, err := os.ReadFile(path)
+	if err != nil {
+		fmt.Fprintln(os.Stderr, err)
+		return 2
+	}
+	var rec struct {
+		Obligation string            `json:"obligation"`
+		Model      map[string]string `json:"model"`
+		Status     string            `json:"status"`
+		Clause     string            `json:"clause"`
+	}
+	if err := json.Unmarshal(b, &rec); err != nil {
+		fmt.Fprintln(os.Stderr, err)
+		return 2
+	}
+	fmt.Printf("obligation: %s\nclause: %s\nsolver status: %s\ninputs: %v\n", rec.Obligation, rec.Clause, rec.Status, rec.Model)
+	o := &Obligation{Name: rec.Obligation}
+	st := rec.Status
+	if len(rec.Model) > 0 {
+		st = "sat"
+	}
+	reproduced, out := tryReplay(nil, "", o, SolveResult{Status: st, Model: rec.Model})
+	js, _ := json.MarshalIndent(out, "", " ")
+	fmt.Println(string(js))
+	if reproduced {
+		fmt.Println("REPRODUCED on the real code")
+		return 1
+	}
+	fmt.Println("not reproduced (no failing input found)")
+	return 0
+}
